@@ -112,6 +112,10 @@ def gen_label(rng, non_ascii, reader="default"):
                                  '/* superseded label:\nEND\n*/\n',
                                  'note = "x\n  end  \ny"\n/* c\nEnd\n */\n'))
             text = text[:-3] + inside + "END"
+        if reader == "default" and rng.random() < 0.3:
+            # ASCII control characters that str.splitlines() takes for line
+            # boundaries (they are ordinary characters to the permissive grammar)
+            text = text[:-3] + 'note3 = "one\x1ctwo\x1dthree\x1efour"\nw\x1cx = y\x1ez\n' + "END"
         if non_ascii:
             extra = 'note2 = "café Δv µm €"\nEND' if reader == "default" else \
                 'note2 = "café µm"\nEND'
